@@ -194,7 +194,11 @@ func GenC02Future(rng *kernel.RNG, env *kernel.Env, k int) any {
 		}
 	}
 	nn := rng.Range(1, 2)
-	adv := []int64{700, 2300, 4100, 5600, 8200, 11500, 16300, 31700}
+	// Every advance is 1 ms more than a whole number of seconds, so the n-th observation happens n ms
+	// past a whole second (n < 1000) while the chain's 5 s timer, started at a whole second or at a
+	// restart, fires at the phase of that moment: no step ever coincides with a tick. Two goroutines
+	// runnable at the same simulated instant would be ordered by the Go scheduler, not by the plan.
+	adv := []int64{701, 2301, 4101, 5601, 8201, 11501, 16301, 31701}
 	var lists [][]Op
 	for i := 0; i < nn; i++ {
 		p.Nodes = append(p.Nodes, genNodeCfg(rng))
@@ -206,7 +210,7 @@ func GenC02Future(rng *kernel.RNG, env *kernel.Env, k int) any {
 			}
 		}
 		// the clock passes everything; then every block once more, in creation order
-		ops = append(ops, Op{Kind: "advance", Node: i, Ms: (last+r.Base+60)*1000 + 500})
+		ops = append(ops, Op{Kind: "advance", Node: i, Ms: (last+r.Base+60)*1000 + 1})
 		for id := 1; id <= len(r.Blocks); id++ {
 			ops = append(ops, Op{Kind: "insert", Node: i, Blocks: []int{id}})
 		}
